@@ -12,6 +12,7 @@ import (
 	"net/url"
 	"reflect"
 	"strconv"
+	"strings"
 
 	"github.com/getkin/kin-openapi/openapi3"
 )
@@ -637,5 +638,86 @@ func verifH_C05_deepobject_undeclared() {
 		verifAssert(ValidateParameter(context.Background(), input, param) != nil, "C05 undeclared: additionalProperties false rejects the undeclared member")
 		verifKnown("C05-deepobject-undeclared-member-dropped", false)
 	}
+	verifReach("end")
+}
+
+//verif:harness id=C05 tier=quick,thorough witness=end bounds="text that is not a serialisation of an object: a non-exploded object parameter (path simple / label / matrix, query form, header, cookie) whose text has an odd number of items (k | k,1,m | k,1,m,2,x), and an exploded one with an item lacking '=' (k=1,m | m): decoding reports an error, it never decodes part of the text; numbers in exponent form (1e3, 1.5E-7, 1e+21) are serialisations of a number and decode to their value"
+func verifH_C05_object_malformed() {
+	intS := verifPrimSchema("integer")
+	obj := &openapi3.SchemaRef{Value: &openapi3.Schema{Type: &openapi3.Types{"object"}, Properties: openapi3.Schemas{"k": intS, "m": intS}}}
+	where := verifChoose("where", 6)
+	explode := verifChoose("explode", 2) == 1
+	var text string
+	if explode {
+		text = []string{"k=1,m", "m"}[verifChoose("text", 2)]
+	} else {
+		text = []string{"k", "k,1,m", "k,1,m,2,x"}[verifChoose("text", 3)]
+	}
+	p := &openapi3.Parameter{Name: "p", Schema: obj, Explode: &explode}
+	input := &RequestValidationInput{Request: &http.Request{Method: "GET", Header: http.Header{}, URL: &url.URL{Path: "/"}}, QueryParams: url.Values{}, PathParams: map[string]string{}}
+	switch where {
+	case 0:
+		p.In, p.Style, p.Required = "path", "simple", true
+		input.PathParams["p"] = text
+	case 1:
+		p.In, p.Style, p.Required = "path", "label", true
+		if explode {
+			text = strings.ReplaceAll(text, ",", ".")
+		}
+		input.PathParams["p"] = "." + text
+	case 2:
+		p.In, p.Style, p.Required = "path", "matrix", true
+		if explode {
+			input.PathParams["p"] = ";" + strings.ReplaceAll(text, ",", ";")
+		} else {
+			input.PathParams["p"] = ";p=" + text
+		}
+	case 3:
+		if explode {
+			return // an exploded form object is spread over the whole query string: no single text to be malformed
+		}
+		p.In, p.Style = "query", "form"
+		input.QueryParams["p"] = []string{text}
+	case 4:
+		p.In, p.Style = "header", "simple"
+		input.Request.Header["P"] = []string{text}
+	case 5:
+		if explode {
+			return
+		}
+		p.In, p.Style = "cookie", "form"
+		input.Request.Header["Cookie"] = []string{"p=" + text}
+	}
+	if p.Validate(context.Background()) != nil {
+		return
+	}
+	_, _, err := decodeStyledParameter(p, input)
+	verifAssert(err != nil, "C05 malformed object: text that does not pair every key with a value is refused, not decoded in part")
+	verifReach("end")
+}
+
+//verif:harness id=C05 tier=quick,thorough witness=end bounds="numbers in exponent form: number parameter (query form / path simple / header / cookie) with text from {1e3, 1.5E-7, 1e+21, 2E0, -1e-2}: each is a serialisation of a number (JSON's own number syntax) and decodes to its value"
+func verifH_C05_number_exponent() {
+	texts := []string{"1e3", "1.5E-7", "1e+21", "2E0", "-1e-2"}
+	wants := []float64{1e3, 1.5e-7, 1e21, 2, -1e-2}
+	k := verifChoose("text", len(texts))
+	p := &openapi3.Parameter{Name: "p", Schema: verifPrimSchema("number")}
+	input := &RequestValidationInput{Request: &http.Request{Method: "GET", Header: http.Header{}, URL: &url.URL{Path: "/"}}, QueryParams: url.Values{}, PathParams: map[string]string{}}
+	switch verifChoose("where", 4) {
+	case 0:
+		p.In = "query"
+		input.QueryParams["p"] = []string{texts[k]}
+	case 1:
+		p.In, p.Required = "path", true
+		input.PathParams["p"] = texts[k]
+	case 2:
+		p.In = "header"
+		input.Request.Header["P"] = []string{texts[k]}
+	case 3:
+		p.In = "cookie"
+		input.Request.Header["Cookie"] = []string{"p=" + texts[k]}
+	}
+	got, found, err := decodeStyledParameter(p, input)
+	verifAssert(err == nil && found && verifSame(got, wants[k]), "C05 exponent: a number in exponent form decodes to its value")
 	verifReach("end")
 }
